@@ -48,7 +48,8 @@ struct Ev { int kind; int frame; long a; long t; };
 bool is_body(int k) { return k == E_ENTER || k == E_LEAF_START || k == E_RESUME || k == E_CATCH || k == E_RETURN || k == E_AWAITABLE; }
 
 struct LeafSpec { int chan = VALUE; int timing = 0; int ctx = 0; int on_stop = 1; };
-enum StepKind { S_LOCAL, S_LEAF, S_CHILD, S_CHILD_OPT, S_TRY_CHILD, S_CLEANUP, S_THROW, S_STOP, S_SIR, S_AWAITABLE, S_AS_SENDER, S_TRY_LEAF, NSTEPKINDS };
+enum StepKind { S_LOCAL, S_LEAF, S_CHILD, S_CHILD_OPT, S_TRY_CHILD, S_CLEANUP, S_THROW, S_STOP, S_SIR, S_AWAITABLE, S_AS_SENDER, S_TRY_LEAF, S_CHILD_MOVED, NSTEPKINDS };
+constexpr int LEGACY_NSTEPKINDS = 12;
 struct Step { int kind; int a = 0; int b = 0; };
 struct Node { std::vector<Step> steps; };
 struct Pending { int kind; void* op; void (*fire)(void*, int); long occ; };   // kind 0 leaf natural, 1 leaf done-after-stop, 2 context item, 3 awaitable resume
@@ -64,6 +65,7 @@ struct Env {
   std::vector<LeafRun> runs;
   int root_signals = 0, root_chan = -1; long root_val = 0, root_err = 0, t_root = -1;
   std::set<const void*> live_ops;
+  long frame_args = 0;   // live by-value coroutine arguments == live coroutine frames (plus temporaries while a call is evaluated)
   void ev(int kind, int frame, long a = 0) { trace.push_back(Ev{kind, frame, a, ++seq}); SR_TR("frame%d: %s %ld", frame, ev_name(kind), a); }
   void remove_pending(void* op) { for (size_t i = 0; i < pending.size();) if (pending[i].op == op) pending.erase(pending.begin() + (long)i); else ++i; }
 };
@@ -147,17 +149,19 @@ struct HAwaitable {
     void park(unifex::coro::coroutine_handle<> hh) noexcept { h = hh; E().pending.push_back(Pending{3, this, [](void* p, int) { static_cast<base*>(p)->h.resume(); }, -1}); }
     long await_resume() const { if (mode & 2) throw ProgErr{500 + id}; return 7000 + id; }
   };
+  // mode bit 4 (16): the awaiter resumes the coroutine from inside await_suspend (as another thread could do before await_suspend
+  // returns); after resume() returns the awaiter may be gone, so nothing of *this is touched any more
   struct awaiter_void : base {
-    bool await_ready() const noexcept { return !(this->mode & 1); }
-    void await_suspend(unifex::coro::coroutine_handle<> hh) noexcept { this->park(hh); }
+    bool await_ready() const noexcept { return !(this->mode & 1) && !(this->mode & 16); }
+    void await_suspend(unifex::coro::coroutine_handle<> hh) noexcept { if (this->mode & 16) { SR_TR("awaitable %ld resumes the coroutine inside await_suspend", this->id); hh.resume(); return; } this->park(hh); }
   };
   struct awaiter_bool : base {
     bool await_ready() const noexcept { return false; }
-    bool await_suspend(unifex::coro::coroutine_handle<> hh) noexcept { if (this->mode & 1) { this->park(hh); return true; } return false; }
+    bool await_suspend(unifex::coro::coroutine_handle<> hh) noexcept { if (this->mode & 16) { SR_TR("awaitable %ld resumes the coroutine inside await_suspend", this->id); hh.resume(); return true; } if (this->mode & 1) { this->park(hh); return true; } return false; }
   };
   struct awaiter_handle : base {
     bool await_ready() const noexcept { return false; }
-    unifex::coro::coroutine_handle<> await_suspend(unifex::coro::coroutine_handle<> hh) noexcept { if (this->mode & 1) { this->park(hh); return unifex::coro::noop_coroutine(); } return hh; }
+    unifex::coro::coroutine_handle<> await_suspend(unifex::coro::coroutine_handle<> hh) noexcept { if (this->mode & 16) { SR_TR("awaitable %ld resumes the coroutine inside await_suspend", this->id); hh.resume(); return unifex::coro::noop_coroutine(); } if (this->mode & 1) { this->park(hh); return unifex::coro::noop_coroutine(); } return hh; }
   };
 };
 struct HAwaitableVoid { long id; int mode; HAwaitable::awaiter_void operator co_await() const noexcept { return {{id, mode}}; } };
@@ -191,6 +195,14 @@ struct XSched {
   friend bool operator!=(XSched a, XSched b) noexcept { return a.ctx != b.ctx; }
 };
 
+// passed by value into every coroutine: lives in the frame from its creation (even if the task is never started) to its destruction
+struct ArgGuard {
+  ArgGuard() { E().frame_args++; }
+  ArgGuard(ArgGuard&&) noexcept { E().frame_args++; }
+  ArgGuard(const ArgGuard&) = delete;
+  ~ArgGuard() { E().frame_args--; }
+};
+
 struct FrameGuard {
   int f; bool moved = false;
   explicit FrameGuard(int fr) : f(fr) {}
@@ -209,7 +221,8 @@ unifex::task<void> cleanup_action(int f, int k, bool awaits) {
   co_return;
 }
 
-unifex::task<long> run_node(int n) {
+unifex::task<long> run_node(int n, ArgGuard = ArgGuard{});
+unifex::task<long> run_node(int n, ArgGuard) {
   Env& e = E();
   int f = e.next_frame++;
   e.ev(E_ENTER, f, n);
@@ -228,6 +241,14 @@ unifex::task<long> run_node(int n) {
         acc = (long)((unsigned long)acc * 31u + (unsigned long)v); break;
       }
       case S_CHILD: { long v = co_await run_node(st.a); E().ev(E_RESUME, f, v); acc = (long)((unsigned long)acc * 31u + (unsigned long)v); break; }
+      case S_CHILD_MOVED: {   // task objects that are moved, move-assigned over an unstarted task, or dropped unstarted: every frame is still destroyed once
+        long v;
+        if (st.b == 0) { auto t = run_node(st.a); t = run_node(st.a); v = co_await std::move(t); }
+        else if (st.b == 1) { auto t = run_node(st.a); auto t2 = std::move(t); v = co_await std::move(t2); }
+        else if (st.b == 2) { { auto dropped = run_node(st.a); (void)dropped; } v = co_await run_node(st.a); }
+        else { auto t = run_node(st.a); auto t2 = std::move(t); t = run_node(st.a); v = co_await std::move(t); }
+        E().ev(E_RESUME, f, v); acc = (long)((unsigned long)acc * 31u + (unsigned long)v); break;
+      }
       case S_CHILD_OPT: { std::optional<long> o = co_await unifex::done_as_optional(run_node(st.a)); long v = o ? *o : -5; E().ev(E_RESUME, f, v); acc = (long)((unsigned long)acc * 31u + (unsigned long)v); break; }
       case S_TRY_CHILD: {
         long v = -3;
@@ -306,7 +327,7 @@ struct Model {
           else { out = r; exited = true; }
           break;
         }
-        case S_CHILD: case S_CHILD_OPT: case S_TRY_CHILD: {
+        case S_CHILD: case S_CHILD_OPT: case S_TRY_CHILD: case S_CHILD_MOVED: {
           MOut r = run(st.a, f, thunked || st.kind == S_CHILD_OPT);
           if (r.chan == VALUE) { ev(E_RESUME, f, r.val); acc = (long)((unsigned long)acc * 31u + (unsigned long)r.val); }
           else if (r.chan == DONE && st.kind == S_CHILD_OPT) { ev(E_RESUME, f, -5); acc = (long)((unsigned long)acc * 31u + (unsigned long)-5L); }
@@ -371,20 +392,22 @@ struct RootR {
 void vk_run_case(vk::Choice& c) {
   auto& cx = vk::ctx();
   Env env; g_env = &env; Env& e = env;
-  // ---- decode the program
+  // ---- decode the program (--legacy=1: byte strings recorded before S_CHILD_MOVED / inline-resuming awaitables existed)
+  const bool legacy = cx.argi("legacy", 0) != 0;
   int nnodes = 1 + (int)c.upto(5);
   e.nodes.resize((size_t)nnodes);
   int cleanup_id = 0; bool any_cleanup = false;
   for (int n = 0; n < nnodes; ++n) {
     int ns = 1 + (int)c.upto(7);
     for (int s = 0; s < ns; ++s) {
-      Step st; st.kind = (int)c.upto(NSTEPKINDS);
+      Step st; st.kind = (int)c.upto(legacy ? LEGACY_NSTEPKINDS : NSTEPKINDS);
       bool has_child = n + 1 < nnodes;
-      if ((st.kind == S_CHILD || st.kind == S_CHILD_OPT || st.kind == S_TRY_CHILD)) { if (!has_child) st.kind = S_LEAF; else st.a = n + 1 + (int)c.upto((uint32_t)(nnodes - n - 1)); }
+      if ((st.kind == S_CHILD || st.kind == S_CHILD_OPT || st.kind == S_TRY_CHILD || st.kind == S_CHILD_MOVED)) { if (!has_child) st.kind = S_LEAF; else st.a = n + 1 + (int)c.upto((uint32_t)(nnodes - n - 1)); }
+      if (st.kind == S_CHILD_MOVED) st.b = (int)c.upto(4);
       if (st.kind == S_CLEANUP) { st.a = cleanup_id++; st.b = (int)c.upto(2); any_cleanup = true; }
       if (st.kind == S_THROW) { st.a = 10 * n + s; if (!c.chance(1, 3)) st.kind = S_LEAF; }
       if (st.kind == S_STOP && !c.chance(1, 3)) st.kind = S_LEAF;
-      if (st.kind == S_AWAITABLE || st.kind == S_AS_SENDER) { st.a = 10 * n + s; st.b = (int)c.upto(12); if (st.b & 2) { if (!c.chance(1, 2)) st.b &= ~2; } }
+      if (st.kind == S_AWAITABLE || st.kind == S_AS_SENDER) { st.a = 10 * n + s; st.b = (int)c.upto(12); if (st.b & 2) { if (!c.chance(1, 2)) st.b &= ~2; } if (!legacy && c.chance(1, 4)) st.b |= 16; }
       e.nodes[(size_t)n].steps.push_back(st);
     }
   }
@@ -396,8 +419,8 @@ void vk_run_case(vk::Choice& c) {
   e.stop_at_occ = c.chance(1, 2) ? (long)c.upto(8) : -1;
   {
     std::string d = "program:";
-    static const char* sk[] = {"local", "await-sender", "child", "opt(child)", "try{child}", "at_exit", "throw", "stop()", "stop_if_requested", "awaitable", "as_sender(awaitable)", "try{await-sender}"};
-    for (int n = 0; n < nnodes; ++n) { d += vk::sfmt(" node%d[", n); for (auto& st : e.nodes[(size_t)n].steps) d += vk::sfmt("%s%s ", sk[st.kind], (st.kind == S_CHILD || st.kind == S_CHILD_OPT || st.kind == S_TRY_CHILD) ? vk::sfmt("->%d", st.a).c_str() : st.kind == S_CLEANUP ? vk::sfmt("#%d%s", st.a, st.b ? "+sender" : "").c_str() : (st.kind == S_AWAITABLE || st.kind == S_AS_SENDER) ? vk::sfmt("(%s,%s,%s)", st.b & 1 ? "suspends" : "ready", st.b & 2 ? "throws" : "value", ((st.b >> 2) & 3) == 1 ? "bool await_suspend" : ((st.b >> 2) & 3) == 2 ? "handle await_suspend" : "void await_suspend").c_str() : ""); d += "]"; }
+    static const char* sk[] = {"local", "await-sender", "child", "opt(child)", "try{child}", "at_exit", "throw", "stop()", "stop_if_requested", "awaitable", "as_sender(awaitable)", "try{await-sender}", "moved-task(child)"};
+    for (int n = 0; n < nnodes; ++n) { d += vk::sfmt(" node%d[", n); for (auto& st : e.nodes[(size_t)n].steps) d += vk::sfmt("%s%s ", sk[st.kind], (st.kind == S_CHILD || st.kind == S_CHILD_OPT || st.kind == S_TRY_CHILD) ? vk::sfmt("->%d", st.a).c_str() : st.kind == S_CHILD_MOVED ? vk::sfmt("->%d/%s", st.a, st.b == 0 ? "assigned-over-unstarted" : st.b == 1 ? "move-constructed" : st.b == 2 ? "extra-task-dropped" : "moved+reassigned").c_str() : st.kind == S_CLEANUP ? vk::sfmt("#%d%s", st.a, st.b ? "+sender" : "").c_str() : (st.kind == S_AWAITABLE || st.kind == S_AS_SENDER) ? vk::sfmt("(%s,%s,%s)", st.b & 16 ? "resumed-inside-await_suspend" : st.b & 1 ? "suspends" : "ready", st.b & 2 ? "throws" : "value", ((st.b >> 2) & 3) == 1 ? "bool await_suspend" : ((st.b >> 2) & 3) == 2 ? "handle await_suspend" : "void await_suspend").c_str() : ""); d += "]"; }
     d += " senders:";
     for (auto& s : e.leaf) d += vk::sfmt(" {%s %s ctx%d on_stop=%d}", sr::chan_name(s.chan), s.timing ? "deferred" : "inline", s.ctx, s.on_stop);
     d += vk::sfmt(" stop_at_sender#%ld", e.stop_at_occ);
@@ -506,6 +529,7 @@ void vk_run_case(vk::Choice& c) {
     for (size_t i = 0; i < e.runs.size(); ++i) dg += vk::sfmt(" r%zu:%d%d%d", i, e.runs[i].chan, (int)e.runs[i].stopped_at_start, (int)(e.runs[i].t_stop_seen >= 0));
     cx.digest = dg;
   }
+  if (!cx.failed && e.frame_args != 0) SR_FAIL(P, "coroutine_frame_leaked", "%ld coroutine frame(s) (their by-value arguments) were never destroyed although the task's operation state has been destroyed", e.frame_args);
   if (!cx.failed && !e.live_ops.empty()) SR_FAIL(P, "awaited_op_leaked", "%zu awaited operation state(s) were never destroyed", e.live_ops.size());
   bool by_exc = false, by_done = false;
   if (model_valid) { if (want.chan == ERROR) by_exc = true; if (want.chan == DONE) by_done = true; for (auto& x : m.body) if (x.kind == E_CATCH) by_exc = true; for (auto& x : m.body) if (x.kind == E_RESUME && x.a == -5) by_done = true; }
